@@ -7,8 +7,10 @@ mod decider;
 mod f2;
 mod framework;
 mod gatesim;
+mod gen;
 mod props;
 mod ring;
+mod selftest;
 mod simcore;
 mod zxeval;
 
@@ -120,6 +122,7 @@ fn main() {
         std::process::exit(2);
     }
     let code = match args.id.as_str() {
+        "C05" => dispatch(&props::c05::C05, &env, &args),
         "C18" => dispatch(&props::c18::C18, &env, &args),
         other => {
             eprintln!("qsim: no check for property '{other}'");
